@@ -509,7 +509,10 @@ func main() {
 		c.Rule("input sets of 1-7 declarations (files, output directories with known digest, symlinks; directories nested to depth 3 over 3 names; " +
 			"leaf names overlapping the directory names; verbatim duplicate declarations; package/name split varied) inserted into the real dirBuilder " +
 			"through the uploadInputDir append sites in ALL permutations (<=5 declarations) or 26 sampled ones; streams: legitimate sets, " +
-			"output-directory-overlaps-interior-directory sets, malformed sets (kind clash / unequal duplicate payloads); plus buildEnv on random maps. " +
+			"output-directory-overlaps-interior-directory sets, malformed sets (kind clash / unequal duplicate payloads); plus buildEnv on random maps; " +
+			"plus END TO END: real BuildTargets (0-4 source files/dirs/symlinks on disk, 1-5 dependencies with stored output Directories, some also sources) in a real BuildGraph " +
+			"through the real Client.uploadInputs and buildAction on a connection-less client, 6 orders each (source declaration order, dependency declaration order, " +
+			"entry order inside each dependency's output Directory); plus the real buildCommand on targets with outputs / named outputs / output dirs / platform labels / env declared in varying orders. " +
 			"distinct = distinct ordered declaration lists; non-trivial = >=3 declarations with a nested directory or a duplicate")
 
 		var replay struct {
@@ -555,7 +558,11 @@ func main() {
 			r := c.Rng.Fork()
 			checkSet(c, r, malformedSet(r), "malformed", 5, 24)
 		}
-		// --- 4. buildEnv
+		// --- 4. end to end: real BuildTargets in a real BuildGraph through the real uploadInputs / buildAction
+		e2eStream(c, c.Scale(40, 600), c.Scale(6, 60))
+		// --- 5. the Command: real buildCommand over declaration orders of outputs / output dirs / labels / env
+		cmdStream(c, c.Scale(60, 1200))
+		// --- 6. buildEnv (last: every call makes a BuildState whose watchdog dumps goroutines after 5 idle seconds)
 		envStream(c, c.Scale(60, 1500))
 	})
 }
